@@ -105,11 +105,11 @@ impl Probe {
     }
 }
 
-//@range file=rsass/src/sass/value.rs impl="impl BinOp" fn=eval from="if self.op == Operator::And {" until="else if self.op.is_cmp()"
+//@range file=rsass/src/sass/value.rs impl="impl BinOp" fn=eval until="else if self.op.is_cmp()"
 //@  header: fn snippet_and_or(op: Operator, probe: &Probe) -> Result<css::Value, ()>
 //@  subst: self.op => op
-//@  subst: self.a.do_evaluate(scope.clone(), true)? => probe.eval_a()?
-//@  subst: self.b.do_evaluate(scope.clone(), true)? => probe.eval_b()?
+//@  subst: self.a.do_evaluate(scope.clone(), true) => probe.eval_a()
+//@  subst: self.b.do_evaluate(scope.clone(), true) => probe.eval_b()
 //@  tail: else { unreachable!() }
 //@end
 
@@ -163,65 +163,63 @@ and_or!(c14_or_empty_list_true, Operator::Or, 5, 0);
 and_or!(c14_or_empty_map_null, Operator::Or, 7, 2);
 
 // ---- map literals: two `==` keys are an error (C13) ----
-
-/// Stands for the evaluation of a key or value sub-expression.
-fn map_probe(tag: u8) -> css::Value {
-    match tag {
-        20 => css::Value::Numeric(Numeric::new(1, Unit::In), false),
-        21 => css::Value::Numeric(Numeric::new(96, Unit::Px), false),
-        22 => css::Value::Numeric(Numeric::new(95, Unit::Px), false),
-        t => shallow(t),
-    }
-}
-
-/// The range constructs `Error::S(..)`; `crate::Error`'s drop glue is out of
-/// CBMC's reach, so inside this module `Error` is a local stand-in with the
-/// same constructor (listed abstraction).
+//
+// With css::Value keys CBMC needs > 6 GB and > 8 min per two-entry literal
+// (css::Value's `==` and drop glue).  The duplicate check itself does not
+// depend on the key type: it is `items.insert(k, v).is_some()` on an
+// OrderMap.  The range is therefore instantiated at a cheap key type whose
+// `==` is non-trivial (equal iff same class modulo 4, like 1in / 96px):
+// listed substitutions `css::ValueMap::new()` -> `OrderMap::<Key, u8>::new()`
+// and `css::Value::Map(items)` -> `items`; `Error` is a local stand-in with
+// the constructor the range uses.  OrderMap::insert below is the real one.
 mod maplit {
-    use super::map_probe;
-    use crate::css;
+    use crate::ordermap::OrderMap;
+    /// equal iff same class (value / 4); the low bits are "representation"
+    #[derive(Clone, Copy, Debug)]
+    pub(super) struct Key(pub u8);
+    impl PartialEq for Key {
+        fn eq(&self, o: &Key) -> bool {
+            self.0 / 4 == o.0 / 4
+        }
+    }
     pub(super) enum Error {
         S(String),
     }
+    fn probe<T: Copy>(x: &T) -> T {
+        *x
+    }
 //@range file=rsass/src/sass/value.rs impl="impl Value" fn=do_evaluate from="let mut items = css::ValueMap::new();" until="\n            }\n"
-//@  header: pub(super) fn snippet_map_literal(m: &Vec<(u8, u8)>) -> Result<css::Value, Error>
-//@  subst: k.do_evaluate(scope.clone(), arithmetic)? => map_probe(*k)
-//@  subst: v.do_evaluate(scope.clone(), arithmetic)? => map_probe(*v)
+//@  header: pub(super) fn snippet_map_literal(m: &Vec<(Key, u8)>) -> Result<OrderMap<Key, u8>, Error>
+//@  subst: css::ValueMap::new() => OrderMap::<Key, u8>::new()
+//@  subst: css::Value::Map(items) => items
+//@  subst: k.do_evaluate(scope.clone(), arithmetic)? => probe(k)
+//@  subst: v.do_evaluate(scope.clone(), arithmetic)? => probe(v)
 //@  head: Ok({
 //@  tail: })
 //@end
 }
-use maplit::snippet_map_literal;
+use maplit::{Key, snippet_map_literal};
 
-/// C13: a map literal with two `==` keys is an error — also when the keys
-/// are written differently (1in and 96px); distinct keys give a map with
-/// both entries in source order.
-macro_rules! map_lit {
-    ($name:ident, $k1:expr, $k2:expr, $dup:expr) => {
-        #[kani::proof]
-        #[kani::stub(alloc::fmt::format, fmt_stub)]
-        #[kani::unwind(4)]
-        fn $name() {
-            let m = vec![($k1, 0u8), ($k2, 2u8)];
-            match snippet_map_literal(&m) {
-                Ok(css::Value::Map(items)) => {
-                    assert!(!$dup, "a map literal with two == keys is an error");
-                    assert!(items.len() == 2, "distinct keys: both entries are kept");
-                    assert!(matches!(items.get_item(0), Some((_, css::Value::True))), "entries keep source order");
-                    assert!(matches!(items.get_item(1), Some((_, css::Value::Null))), "entries keep source order");
-                }
-                Ok(_) => assert!(false, "a map literal evaluates to a map"),
-                Err(_) => assert!($dup, "distinct keys are not an error"),
-            }
+/// C13: a map literal with two `==` keys is an error — also when the two
+/// keys are different representations of the same key; distinct keys give a
+/// map with all entries in source order.  Three-entry literals, all keys.
+#[kani::proof]
+#[kani::stub(alloc::fmt::format, fmt_stub)]
+#[kani::unwind(5)]
+fn c13_map_literal_duplicate_keys_are_an_error() {
+    let (k1, k2, k3): (u8, u8, u8) = (kani::any(), kani::any(), kani::any());
+    let m = vec![(Key(k1), 1u8), (Key(k2), 2u8), (Key(k3), 3u8)];
+    let dup = k1 / 4 == k2 / 4 || k1 / 4 == k3 / 4 || k2 / 4 == k3 / 4;
+    match snippet_map_literal(&m) {
+        Ok(items) => {
+            assert!(!dup, "a map literal with two == keys is an error");
+            assert!(items.len() == 3, "distinct keys: every entry is kept");
+            assert!(matches!(items.get_item(0), Some((_, 1))) && matches!(items.get_item(1), Some((_, 2))) && matches!(items.get_item(2), Some((_, 3))),
+                "entries keep source order");
         }
-    };
+        Err(_) => assert!(dup, "distinct keys are not an error"),
+    }
 }
-map_lit!(c13_map_literal_true_false, 0u8, 1u8, false);
-map_lit!(c13_map_literal_true_true, 0u8, 0u8, true);
-map_lit!(c13_map_literal_null_null, 2u8, 2u8, true);
-map_lit!(c13_map_literal_1in_96px, 20u8, 21u8, true);
-map_lit!(c13_map_literal_1in_95px, 20u8, 22u8, false);
-map_lit!(c13_map_literal_96px_true, 21u8, 0u8, false);
 
 #[kani::proof]
 #[kani::unwind(4)]
